@@ -4,10 +4,12 @@ import Rangers.Generated.NondetSites
 
 `Rangers.Generated.NondetSites` is rewritten from the go-rangers working tree by
 `gen/cmd/c01facts` on every run.  A site key encodes kind, file, function, the ranged
-expression and the *shape* of the loop body (set of callees, early exit).  A new
-range-over-map, clock/rand call, go statement or float use on the execution path, or a new
-call inside one of the known loop bodies, produces a key that is in none of the three
-lists below, and `sites_accounted` stops checking.
+expression and the *shape* of the loop body (set of callees, early exit), the guard of a clock
+reading, or the name of the proposal flag read.  A new range-over-map, clock/rand call, go
+statement, float use, `IsProposalNNN` / `GetBlockHeight` read on the execution path, or a new call
+inside one of the known loop bodies, produces a key that is in none of the lists below, and
+`sites_accounted` stops checking.  (This file is produced by gen/cmd/c01facts/mkprops.py from the
+reviewed classification table; it is never rewritten by bin/check.)
 -/
 namespace Rangers.Props.C01Sites
 open Rangers.Generated.NondetSites
@@ -23,21 +25,21 @@ def modelled : List Nat := [
   3936070550088349  -- maprange src/storage/account/accountdb.go AccountDB.Finalise [adb.accountObjectsDirty] — finalise_order_irrelevant / root_deterministic
 ]
 
-/-- sites whose loop body is a pointwise write per distinct key (the shape proved order-irrelevant for Finalise / the assign loop), or whose value is excluded by a stated hypothesis -/
+/-- sites whose loop body is a pointwise write per distinct key (the shape proved order-irrelevant for Finalise / the assign loop), whose value is excluded by a stated hypothesis, or float code that is modelled bit-exactly -/
 def provedIrrelevant : List Nat := [
   3856436940803613,  -- clock src/core/vmexecutor.go VMExecutor.Execute [utility.GetTime guard=casting] — reading used only under situation == "casting" (excluded by hypothesis)
   3856436672368157,  -- clock src/core/vmexecutor.go VMExecutor.Execute [utility.GetTime guard=casting] — reading used only under situation == "casting" (excluded by hypothesis)
   819878443287521,  -- clock src/core/vmexecutor.go VMExecutor.Execute [utility.GetTime guard=none in=log] — argument of the perf log line only
-  853210697014512,  -- float src/service/miner_manager.go MinerManager.AddMiner [float64 arithmetic] — Float64ToBigInt(float64(stake)) inside the uninterpreted miner executor
+  853210697014512,  -- float src/service/miner_manager.go MinerManager.AddMiner [float64 arithmetic] — Float64ToBigInt(float64(stake)) = stake·10^18 exactly (stake < 2^53)
   2729115008603403,  -- float src/service/miner_manager.go MinerManager.AddStake [float64 arithmetic] — idem
-  1651635626124009,  -- float src/service/reward_calculator.go RewardCalculator.NextRewardHeight [float64 arithmetic] — ceil(float64(h)/float64(n)): deterministic IEEE-754, input of RewardIn.nextHeight
-  4053208236702098,  -- float src/service/reward_calculator.go RewardCalculator.calculateRewardPerBlock [float64 arithmetic] — float leaves are uninterpreted numbers of RewardIn
-  995355851358404,  -- float src/service/reward_calculator.go getTotalReward [float64 arithmetic] — idem
+  1651635626124009,  -- float src/service/reward_calculator.go RewardCalculator.NextRewardHeight [float64 arithmetic] — ceil(float64(h)/float64(n)): modelled exactly (nextRewardHeight)
+  4053208236702098,  -- float src/service/reward_calculator.go RewardCalculator.calculateRewardPerBlock [float64 arithmetic] — bit-exact model Model/RewardFloat.lean (mul, div, uint64→float64, Float64ToBigInt)
+  995355851358404,  -- float src/service/reward_calculator.go getTotalReward [float64 arithmetic] — math.Pow result enters the model as a float64 bit pattern (the remaining float assumption)
   1193841345351180,  -- maprange src/storage/account/access_list.go accessList.Copy [a.addresses] — copy into a fresh map (pointwise)
   463605537198112,  -- maprange src/storage/account/access_list.go accessList.Copy [slotMap] — copy into a fresh map (pointwise)
   3985031088353963,  -- maprange src/storage/account/account_object.go Storage.Copy [s] — copy into a fresh map (pointwise)
   2705308017770881,  -- maprange src/storage/account/account_object.go accountObject.updateTrie [ao.dirtyStorage] — one trie write per distinct storage key: same shape as Finalise (finalise_order_irrelevant)
-  4416968965708562,  -- maprange src/storage/account/account_object_tuntun.go accountObject.getAllRefund [c.cachedStorage] — assignment into a fresh map keyed by BytesToAddress(key); keys distinct for 20-byte ids (assign loop, reward_map_order_irrelevant shape); its result is ranged by CheckAndMove (modelled)
+  4416968965708562,  -- maprange src/storage/account/account_object_tuntun.go accountObject.getAllRefund [c.cachedStorage] — assignment into a fresh map keyed by BytesToAddress(key); keys distinct for 20-byte ids; its result is ranged by CheckAndMove (modelled)
   4244592305674814,  -- syncrange src/storage/account/accountdb.go AccountDB.Commit [adb.accountObjects] — per-address trie write after execution, same shape as Finalise
   4244764451203326,  -- maprange src/storage/account/accountdb.go AccountDB.SetStorage [storage] — SetData per distinct key (pointwise)
   1948980877343030,  -- maprange src/storage/account/transient_storage.go transientStorage.Copy [t] — copy into a fresh map (pointwise)
@@ -48,22 +50,89 @@ def provedIrrelevant : List Nat := [
 def outOfPath : List Nat := [
   155724176486280,  -- float src/middleware/types/receipt.go Receipt.Size [float64 arithmetic] — cache size accounting
   1874387891556681,  -- go src/service/transaction_pool.go TxPool.MarkExecuted [mysql.InsertLogs] — after the block is executed and accepted (log export)
+  4265891022610158,  -- flag src/service/transaction_pool.go TxPool.PackForCast [IsProposal018] — packing for casting, not execution
   3615489623871734,  -- maprange src/storage/account/account_object.go Storage.String [s] — debug printing only
   2736704378582563,  -- maprange src/vm/contracts.go init [PrecompiledContracts] — vm.PrecompiledAddresses is never read (ActivePrecompiles has no caller)
   2650438225647281  -- clock src/vm/vm_test_helper.go setDefaults [time.Now guard=none] — test helper
 ]
 
-theorem sites_accounted : ∀ k ∈ siteKeys, k ∈ modelled ∨ k ∈ provedIrrelevant ∨ k ∈ outOfPath := by
+/-- proposal-flag reads that are fields of `Flags` (quantified in every theorem; `flagsAt` derives them from the process-wide height, see Props/C01B) -/
+def flagsModelled : List Nat := [
+  2016476681857258,  -- flag src/core/vmexecutor.go VMExecutor.Execute [IsProposal006] — Flags.p006
+  2016476413421802,  -- flag src/core/vmexecutor.go VMExecutor.Execute [IsProposal006] — Flags.p006
+  1828620449447686,  -- flag src/core/vmexecutor.go VMExecutor.Execute [IsProposal007] — Flags.p007
+  1828620717883142,  -- flag src/core/vmexecutor.go VMExecutor.Execute [IsProposal007] — Flags.p007
+  1566736151754309,  -- flag src/core/vmexecutor.go VMExecutor.Execute [IsProposal018] — Flags.p018
+  1566736420189765,  -- flag src/core/vmexecutor.go VMExecutor.Execute [IsProposal018] — Flags.p018
+  1067181934379030,  -- flag src/executor/base_executor.go validateNonce [IsProposal018] — Flags.p018
+  695224622119948,  -- flag src/executor/base_executor.go validateNonce [IsProposal021] — Flags.p021
+  3776577679993333,  -- flag src/middleware/types/transaction.go Transactions.Less [IsProposal016] — Flags.p016
+  4117761051150406,  -- flag src/middleware/types/transaction.go Transactions.Less [IsProposal021] — Flags.p021
+  4435616011513700  -- flag src/middleware/types/transaction.go Transactions.Less [IsProposal023] — Flags.p023
+]
+
+/-- proposal-flag reads in interpreted code whose value the model holds fixed (stated assumption of the correspondence: harness runs them active) -/
+def flagsHeldFixed : List Nat := [
+  2646494419772892,  -- flag src/core/vmexecutor.go VMExecutor.Execute [IsProposal013] — where receipt logs come from; held at the dev value (active) — same read of the process height
+  2646494151337436,  -- flag src/core/vmexecutor.go VMExecutor.Execute [IsProposal013] — where receipt logs come from; held at the dev value (active) — same read of the process height
+  2328648049344193,  -- flag src/core/vmexecutor.go VMExecutor.Execute [IsProposal015] — receipt.GasUsed; held active
+  1210114004675794,  -- flag src/core/vmexecutor.go VMExecutor.Execute [IsProposal027] — gas fee of failed contract tx; inside the uninterpreted step
+  746476463036839,  -- flag src/service/miner_manager.go MinerManager.UpdateMiner [IsProposal003] — status byte written (active)
+  716629568959828,  -- flag src/service/refund_manager.go RefundManager.getRefundHeight [IsProposal004] — p012 active / p004 active in the modelled miner refund (refund height = now + 36000)
+  2091338548641459,  -- flag src/service/refund_manager.go RefundManager.getRefundHeight [IsProposal012] — p012 active / p004 active in the modelled miner refund (refund height = now + 36000)
+  2945477660024741,  -- flag src/service/transaction_pool.go TxPool.ProcessFee [IsProposal026] — fee constant = Env.fee, passed per block
+  3937565181941891,  -- flag src/storage/account/accountdb_tuntun.go AccountDB.AddFT [IsProposal002] — journaled vs raw write in the ERC20-binding path; same content
+  4252596473140683  -- flag src/storage/account/accountdb_tuntun.go AccountDB.SubFT [IsProposal002] — idem
+]
+
+/-- proposal-flag reads inside the uninterpreted executors -/
+def flagsInUninterpreted : List Nat := [
+  1613676919829222,  -- flag src/executor/contract_executor.go IntrinsicGas [IsProposal026] — inside Env.other (EVM / contract executor): part of the uninterpreted deterministic step, which therefore also depends on the process height
+  4190586856486957,  -- flag src/executor/contract_executor.go contractExecutor.Execute [IsProposal007] — inside Env.other (EVM / contract executor): part of the uninterpreted deterministic step, which therefore also depends on the process height
+  745735329012713,  -- flag src/executor/contract_executor.go contractExecutor.Execute [IsProposal015] — inside Env.other (EVM / contract executor): part of the uninterpreted deterministic step, which therefore also depends on the process height
+  745735597448170,  -- flag src/executor/contract_executor.go contractExecutor.Execute [IsProposal015] — inside Env.other (EVM / contract executor): part of the uninterpreted deterministic step, which therefore also depends on the process height
+  745734792141801,  -- flag src/executor/contract_executor.go contractExecutor.Execute [IsProposal015] — inside Env.other (EVM / contract executor): part of the uninterpreted deterministic step, which therefore also depends on the process height
+  487666313421566,  -- flag src/executor/contract_executor.go contractExecutor.Execute [IsProposal017] — inside Env.other (EVM / contract executor): part of the uninterpreted deterministic step, which therefore also depends on the process height
+  2591229366658006,  -- flag src/executor/contract_executor.go contractExecutor.Execute [IsProposal026] — inside Env.other (EVM / contract executor): part of the uninterpreted deterministic step, which therefore also depends on the process height
+  1145138392073122,  -- flag src/executor/contract_executor.go contractExecutor.decodeContractData [IsProposal005] — inside Env.other (EVM / contract executor): part of the uninterpreted deterministic step, which therefore also depends on the process height
+  86390292176870,  -- flag src/executor/contract_executor.go contractExecutor.decodeContractData [IsProposal017] — inside Env.other (EVM / contract executor): part of the uninterpreted deterministic step, which therefore also depends on the process height
+  1703277345385760,  -- flag src/executor/contract_executor.go preCheckContractFee [IsProposal015] — inside Env.other (EVM / contract executor): part of the uninterpreted deterministic step, which therefore also depends on the process height
+  87652477679558,  -- flag src/vm/evm.go EVM.create [IsProposal006] — inside Env.other (EVM / contract executor): part of the uninterpreted deterministic step, which therefore also depends on the process height
+  217616845894899,  -- flag src/vm/evm.go EVM.create [IsProposal007] — inside Env.other (EVM / contract executor): part of the uninterpreted deterministic step, which therefore also depends on the process height
+  1558905320132702,  -- flag src/vm/evm.go EVM.create [IsProposal026] — inside Env.other (EVM / contract executor): part of the uninterpreted deterministic step, which therefore also depends on the process height
+  4109903882767048,  -- flag src/vm/gas_table.go gasCreate2 [IsProposal026] — inside Env.other (EVM / contract executor): part of the uninterpreted deterministic step, which therefore also depends on the process height
+  3730341296338322,  -- flag src/vm/gas_table.go gasExpEIP158 [IsProposal026] — inside Env.other (EVM / contract executor): part of the uninterpreted deterministic step, which therefore also depends on the process height
+  945952674316280,  -- flag src/vm/gas_table.go gasExpFrontier [IsProposal026] — inside Env.other (EVM / contract executor): part of the uninterpreted deterministic step, which therefore also depends on the process height
+  453570103511046,  -- flag src/vm/gas_table.go gasSStore [IsProposal015] — inside Env.other (EVM / contract executor): part of the uninterpreted deterministic step, which therefore also depends on the process height
+  4135456344970176,  -- flag src/vm/gas_table.go gasSStore [IsProposal026] — inside Env.other (EVM / contract executor): part of the uninterpreted deterministic step, which therefore also depends on the process height
+  2931637079757790,  -- flag src/vm/gas_table.go gasSStoreEIP2200 [IsProposal015] — inside Env.other (EVM / contract executor): part of the uninterpreted deterministic step, which therefore also depends on the process height
+  3272829040849459,  -- flag src/vm/gas_table.go gasSStoreEIP2200 [IsProposal026] — inside Env.other (EVM / contract executor): part of the uninterpreted deterministic step, which therefore also depends on the process height
+  4469690667242246,  -- flag src/vm/gas_table.go gasSha3 [IsProposal026] — inside Env.other (EVM / contract executor): part of the uninterpreted deterministic step, which therefore also depends on the process height
+  4116766534599044,  -- flag src/vm/gas_table.go makeGasLog [IsProposal026] — inside Env.other (EVM / contract executor): part of the uninterpreted deterministic step, which therefore also depends on the process height
+  815210440111050,  -- flag src/vm/gas_table.go memoryCopierGas [IsProposal026] — inside Env.other (EVM / contract executor): part of the uninterpreted deterministic step, which therefore also depends on the process height
+  4235225489193412  -- flag src/vm/gas_table.go memoryGasCost [IsProposal026] — inside Env.other (EVM / contract executor): part of the uninterpreted deterministic step, which therefore also depends on the process height
+]
+
+def accounted : List Nat := modelled ++ provedIrrelevant ++ outOfPath ++ flagsModelled ++ flagsHeldFixed ++ flagsInUninterpreted
+
+theorem sites_accounted : ∀ k ∈ siteKeys, k ∈ accounted := by
   decide
 
 /-- the sites the model folds over still exist in the source (a vanished site means a stale model) -/
-theorem modelled_sites_exist : ∀ k ∈ modelled, k ∈ siteKeys := by
+theorem modelled_sites_exist : ∀ k ∈ modelled ++ flagsModelled, k ∈ siteKeys := by
   decide
 
 /-- the generated key list is the key column of the generated table -/
 theorem siteKeys_eq : siteKeys = sites.map (·.key) := by
   decide
 
+/-- every proposal-flag read on the path is pinned: the flag reads found are exactly the classified ones -/
+theorem flag_reads_pinned :
+    ((sites.filter (fun s => s.kind == "flag")).map (·.key)).all
+      (fun k => (flagsModelled ++ flagsHeldFixed ++ flagsInUninterpreted ++ outOfPath).contains k) = true := by
+  decide
+
 example : siteKeys ≠ [] := by decide
+example : flagsModelled ≠ [] := by decide
 
 end Rangers.Props.C01Sites
